@@ -90,6 +90,17 @@ def kinds(b):
     for nm, rel in cmpops:
         K.append(Kind("assert_%s(x,const) after a refused float bound" % nm, 2, _after_refusal(nm),
                       (lambda r_: lambda v, prm: v[1] <= lim and r_(v[0], prm))(rel), params=[1, -1]))
+    # assertions on the OUTPUT of another operation (the quotient of a division is a fresh witness that the division itself
+    # does not range-check - known finding K2 of C02 - so programs assert its range themselves)
+    K.append(Kind("(x // 3).assert_positive()", 1, lambda ns, ops, prm: (ops[0] // 3).assert_positive(), lambda v, prm: 0 <= v[0] // 3 < lim))
+    K.append(Kind("divmod(x, 3)[0].assert_positive()", 1, lambda ns, ops, prm: divmod(ops[0], 3)[0].assert_positive(), lambda v, prm: 0 <= v[0] // 3 < lim))
+    K.append(Kind("(x // 2).assert_lt(c)", 1, lambda ns, ops, prm: (ops[0] // 2).assert_lt(prm), lambda v, prm: v[0] // 2 < prm and -lim < v[0] // 2, params=[1, 2]))
+    # a value assembled by from_bits from entries that are NOT constrained bits (digit sums, raw wires - the API takes them) and
+    # then declared n-bit: the declaration must decompose it, whatever from_bits "knows" about its width
+    K.append(Kind("from_bits([x, y]).assert_positive(n)", 2, lambda ns, ops, prm: ns.rt.LinComb.from_bits([ops[0], ops[1]]).assert_positive(prm),
+                  lambda v, prm: 0 <= v[0] + 2 * v[1] < (1 << prm), params=[2, 3]))
+    K.append(Kind("from_bits([x + y, y]).to_bits(n)", 2, lambda ns, ops, prm: ns.rt.LinComb.from_bits([ops[0] + ops[1], ops[1]]).to_bits(prm),
+                  lambda v, prm: 0 <= v[0] + 3 * v[1] < (1 << prm), params=[2]))
     # arrays of different lengths are not equal whatever the entries are (today: refused with ValueError)
     K.append(Kind("Array.assert_eq(longer,shorter)", 2,
                   lambda ns, ops, prm: ns.ar.Array([ops[0], ops[1]]).assert_eq(ns.ar.Array([ops[0]])), lambda v, prm: False))
